@@ -56,6 +56,23 @@ class _TimeShim:
         return _CLOCK[0]
 
 
+_ABSENT = object()
+
+
+def _pin_clock(bp):
+    """Pin the clock the module sees (it may not import `time` at all after a change)."""
+    saved = getattr(bp, "time", _ABSENT)
+    bp.time = _TimeShim
+    return saved
+
+
+def _unpin_clock(bp, saved):
+    if saved is _ABSENT:
+        del bp.time
+    else:
+        bp.time = saved
+
+
 class FakeLock:
     def __init__(self, ex):
         self.ex = ex
@@ -657,12 +674,11 @@ def run(ctx):
                     "spurious wake-ups are scheduled for un-timed waits)",
                     "digest comparison: 48-bit polynomial hash of each schedule's trace, summed (collisions ignored)"]
     ctx.prove(GENS)
-    saved = bp.time
-    bp.time = _TimeShim
+    saved = _pin_clock(bp)
     try:
         _run(ctx, rng)
     finally:
-        bp.time = saved
+        _unpin_clock(bp, saved)
 
 
 def _run(ctx, rng):
@@ -717,8 +733,7 @@ def replay(ctx, rep):
     case = rep["case"]
     programs = [[tuple(op) for op in p] for p in _unjson(case["programs"])]
     sched = [tuple(c) for c in _unjson(case["schedule"])]
-    saved = bp.time
-    bp.time = _TimeShim
+    saved = _pin_clock(bp)
     try:
         r = run_schedule(ctx, programs, sched)
         ctx.count((programs, sched), kind="replay")
@@ -727,4 +742,4 @@ def replay(ctx, rep):
             compare_explicit(ctx, [(programs, r)])
         ctx.count(("replay2", programs, sched), kind="replay")
     finally:
-        bp.time = saved
+        _unpin_clock(bp, saved)
